@@ -71,7 +71,7 @@ def direct_validation_leg(tier, seed):
 def run(tier, seed):
     return _solve.run(
         "C19", tier, seed, select=select, extra_cases=lambda rng, q: [],
-        needs=["scripted", "builtin", "stopped_early"], extra_leg=direct_validation_leg,
+        needs=["scripted", "builtin", "stopped_early", "validation_with_own_param_generator"], extra_leg=direct_validation_leg,
         rule="MC: Solve.tla all validation outcome scripts (user module: improve/stop per call; ValidationLoss: loss values, patience, "
              "early-stopping on/off), periods, iteration counts, faults; every terminal state is emitted as a scenario and a stratified "
              "selection (vkind x period x patience x early x stopped? x n x fault?) is replayed into jinns.solve with a scripted "
